@@ -264,6 +264,11 @@ def c15_scenarios(tier, seed):
         for n in ((1, 2, 3, 4, 5, 7) if tier == "quick" else range(0, 17)):
             out.append({"id": "c15-filterchain%d-derive-%d" % (n, rnd), "gen": g("FilterChain", minLen=n), "k": 4, "iters": 8 if tier == "quick" else 30,
                         "rounds": rounds, "pairing": "derive", "seed": rng.randrange(1, 1 << 30)})
+        # two different generators whose lazily built parts go by one name inside rapid (a character class and its case-insensitive twin print alike),
+        # drawn from concurrently; each is compared with what a process that only ever sees that one generator draws
+        for kind in ("StringMatching", "SliceOfBytesMatching"):
+            out.append({"id": "c15-namesake-%s-%d" % (kind, rnd), "gen": g(kind, expr="(?i)%FRESH%{3}x"), "gen2": g(kind, expr="%FRESH%{3}x"), "k": 6,
+                        "iters": 6 if tier == "quick" else 20, "rounds": 3 if tier == "quick" else 12, "pairing": "namesake", "seed": rng.randrange(1, 1 << 30)})
         # deterministic interleaving: the first check is paused in its j-th user callback while the others run to completion
         for name in ("distinct", "distinct_small", "mapvalues", "filter", "custom", "map"):
             for j in (1, 2, 3, 5):
